@@ -658,6 +658,41 @@ func checkC20Swallow(p *Prog, r *Report, ru *Rule) {
 				not as a failure of start-up. */
 				return
 			}
+			/* Whatever the error is taken to mean: what the call handed
+			back with it is the zero value, and a success return which
+			hands that on makes the caller trust it (a retry loop which
+			gives up and falls through to "return l, nil"). */
+			if tu, isTu := call.Type().(*types.Tuple); isTu && tu.Len() >= 2 {
+				for _, t := range nilTestsOf(fn, errV) {
+					from := edgeLoc(t.If.Block(), 1-t.NilSucc)
+					stale := reachQ{From: from, Block: func(j ssa.Instruction) bool { return j == ssa.Instruction(call) }, TargetF: func(j ssa.Instruction, facts nilFacts) bool {
+						ret, ok := j.(*ssa.Return)
+						if !ok || errIdx >= len(ret.Results) {
+							return false
+						}
+						rv := retVal(ret, errIdx)
+						if !isNilConst(rv) && 1 != nilnessOf(rv, facts) {
+							return false
+						}
+						for k := 0; k < len(ret.Results); k++ {
+							if k == errIdx {
+								continue
+							}
+							for _, x := range valueRoots(retVal(ret, k), nil) {
+								if "call" == x.Kind && x.V == ssa.Value(call) && x.Idx != tu.Len()-1 {
+									return true
+								}
+							}
+						}
+						return false
+					}}.run()
+					if nil != stale {
+						per[name]++
+						bad++
+						ru.Bad(fmt.Sprintf("%s→%s#%d:failed-result-returned", fnName(fn), name, per[name]), posOf(stale), "after %s failed (and was not called again), %s can return what that call handed back — the zero value — together with a nil error: the caller trusts it and the program crashes instead of reporting the failure", name, fnName(fn))
+					}
+				}
+			}
 			for _, t := range nilTestsOf(fn, errV) {
 				from := edgeLoc(t.If.Block(), 1-t.NilSucc)
 				hit := reachQ{From: from, Block: func(j ssa.Instruction) bool {
